@@ -82,6 +82,14 @@ struct M
 #define Y2
 #endif
 static int thrower(int v) { throw v; }
+// a value with a destructive move: captured by copy in a clause, it must serve every call the expectation handles
+struct movable_val
+{
+  int v;
+  explicit movable_val(int x) : v(x) {}
+  movable_val(movable_val const &o) : v(o.v) {}
+  movable_val(movable_val &&o) noexcept : v(o.v) { o.v = -12345; }
+};
 
 // drives one coroutine to completion and checks what it produces
 static void drain(co<int> &c, int x, int y0, int y1, int y2, int rv, char const *)
@@ -147,7 +155,14 @@ extern "C" void harness(void)
   int y0 = (int)verif_nondet_uint(), y1 = (int)verif_nondet_uint(), y2 = (int)verif_nondet_uint(), rv = (int)verif_nondet_uint();
   unsigned effects = 0;
 #line 200
-#if VF_END == 0
+#ifndef VF_MV
+#define VF_MV 0          /* 1: the CO_RETURN expression reads a by-copy captured object whose move constructor empties its source */
+#endif
+  movable_val mvv(rv);
+  (void)mvv;
+#if VF_END == 0 && VF_MV
+#define ENDCLAUSE .CO_RETURN(mvv.v)
+#elif VF_END == 0
 #define ENDCLAUSE .CO_RETURN(rv)
 #elif VF_END == 1
 #define ENDCLAUSE .CO_THROW(rv)
@@ -177,6 +192,10 @@ extern "C" void harness(void)
     for (int k = 1; k < VF_Y; ++k) { bool s = c1.step(); int w = k == 1 ? y1 : y2; VCLAIM(20, s && c1.h.promise().cur == w, "C20.coroutines_of_two_calls_are_independent"); }
     c1.step();
     VCLAIM(20, c1.h.done() && c1.h.promise().yields == VF_Y, "C20.coroutines_of_two_calls_are_independent");
+#if VF_END == 0 && (VF_YT < 1)
+    { bool t1 = false; int g1 = 0; try { g1 = c1.await_resume(); } catch (int) { t1 = true; }
+      VCLAIM(20, !t1 && g1 == rv, "C20.first_call_still_returns_the_clause_value_after_the_second_one_finished"); }
+#endif
 #else
     drain(c2, x2, y0, y1, y2, rv, "second");
     drain(c1, x, y0, y1, y2, rv, "first");
